@@ -10,10 +10,11 @@ Section Rules.
   Variable U : units num.
   Variable K : oracles num.
   Variable minpos : num.
+  Variable rj : bool.      (* rejects_bad_period *)
 
-  Local Notation try_as_spdc := (try_as_spdc_steps o U K minpos).
+  Local Notation try_as_spdc := (try_as_spdc_steps o U K minpos rj).
   Local Notation signal_step := (signal_step o K).
-  Local Notation poling_step := (poling_step o K minpos).
+  Local Notation poling_step := (poling_step o K minpos rj).
   Local Notation theta_step := (theta_step o K).
   Local Notation idler_step := (idler_step o K).
   Local Notation cfg_cs0 := (cfg_cs0 o).
@@ -71,7 +72,8 @@ Section Rules.
       - destruct (optimum_poling_period _ _ _ _ _ _) as [[per | []] | |]; cbn [bind]; try discriminate;
           intros H; inversion H; subst; try reflexivity.
         unfold poling_new. destruct (nltb o _ _); reflexivity.
-      - destruct (compute_sign _ _ _ _ _) as [sg | |]; cbn [bind]; try discriminate.
+      - destruct (rj && neqb o pu (n0 o)); try discriminate.
+        destruct (compute_sign _ _ _ _ _) as [sg | |]; cbn [bind]; try discriminate.
         intros H; inversion H; subst. unfold poling_new. destruct (nltb o _ _); reflexivity. }
     rewrite Hoff. reflexivity.
   Qed.
@@ -95,7 +97,8 @@ Section Rules.
     signal_step c = Ok signal -> le_pump signal (cfg_pump c) = true ->
     match c_pp c with
     | PCConfig Auto _ => try_as_spdc c = Panic SiteOptPeriodUnwrap
-    | PCConfig (Param _) _ => try_as_spdc c = Panic SiteComputeSignUnwrap
+    | PCConfig (Param pu) _ =>
+        if rj && neqb o pu (n0 o) then try_as_spdc c = Err EBadPeriod else try_as_spdc c = Panic SiteComputeSignUnwrap
     | PCOff =>
         match cc_theta_deg (c_crystal c) with
         | Auto => try_as_spdc c = Panic SiteOptThetaUnwrap \/ try_as_spdc c = Panic SiteNelderMeadUnwrap
@@ -125,7 +128,8 @@ Section Rules.
         * destruct (beam_of_cfg o K _ ic _) as [b | e | s]; reflexivity.
     - destruct per as [| pu].
       + unfold optimum_poling_period. fold (Config.cfg_pump o c). rewrite Hle. reflexivity.
-      + unfold compute_sign. fold (Config.cfg_pump o c). rewrite Hle. reflexivity.
+      + destruct (rj && neqb o pu (n0 o)); [reflexivity |].
+        unfold compute_sign. fold (Config.cfg_pump o c). rewrite Hle. reflexivity.
   Qed.
 
   (* the non-failing class: explicit crystal angle, no poling, automatic idler *)
@@ -151,6 +155,16 @@ Section Rules.
     intros Hs Hp Hle Hz Hnm Hlt. unfold Config.try_as_spdc_steps. rewrite Hs. cbn [bind].
     unfold Config.poling_step, poling_of_cfg. rewrite Hp. unfold optimum_poling_period.
     fold (Config.cfg_pump o c). fold (Config.cfg_cs0 o c). rewrite Hle, Hz, Hnm, Hlt. reflexivity.
+  Qed.
+
+  (* ---------------------------------------------------------------------------------------------------------------
+     rule 5 (when the code has it): an explicit poling period of 0 *)
+  Theorem rule_bad_period c signal pu a :
+    rj = true -> signal_step c = Ok signal -> c_pp c = PCConfig (Param pu) a -> neqb o pu (n0 o) = true ->
+    try_as_spdc c = Err EBadPeriod.
+  Proof.
+    intros -> Hs Hp Hz. unfold Config.try_as_spdc_steps. rewrite Hs. cbn [bind].
+    unfold Config.poling_step, poling_of_cfg. rewrite Hp, Hz. reflexivity.
   Qed.
 
   (* ---------------------------------------------------------------------------------------------------------------
@@ -186,7 +200,7 @@ Section Rules.
         specialize (H4 signal (cfg_pump c) (cfg_cs0 c)).
         destruct (o_nm_period K _ _ _); [| congruence].
         destruct (_ || _); reflexivity.
-      - unfold compute_sign. rewrite Hle. reflexivity. }
+      - destruct (rj && neqb o pu (n0 o)); [reflexivity |]. unfold compute_sign. rewrite Hle. reflexivity. }
     destruct (poling_step c signal) as [[pp nf] | |]; cbn [bind is_panic fst] in *; try reflexivity; try discriminate.
     assert (Hth : is_panic (theta_step c signal pp) = false).
     { unfold Config.theta_step. destruct (is_auto _); [| reflexivity]. destruct (is_pol_off pp); [| reflexivity].
@@ -226,7 +240,8 @@ Section Rules.
           -- unfold beam_of_cfg, set_theta_external. destruct (bc_theta_deg ic), (bc_theta_ext_deg ic); cbn [bind]; try discriminate.
              destruct (o_snell_inv K _ _ _); cbn [bind]; discriminate.
       + unfold optimum_poling_period. fold (Config.cfg_pump o c). rewrite Hle. discriminate.
-      + unfold compute_sign. fold (Config.cfg_pump o c). rewrite Hle. discriminate.
+      + destruct (rj && neqb o pu (n0 o)); [discriminate |].
+        unfold compute_sign. fold (Config.cfg_pump o c). rewrite Hle. discriminate.
     - (* not le: only the searches can panic *)
       intros H. right. revert H. unfold Config.poling_step, poling_of_cfg.
       destruct (c_pp c) as [| [| pu] a].
@@ -258,7 +273,8 @@ Section Rules.
           -- fold (Config.cfg_pump o c). rewrite Hle. destruct (o_idler_theta K _ _ _ _); discriminate.
           -- unfold beam_of_cfg, set_theta_external. destruct (bc_theta_deg ic), (bc_theta_ext_deg ic); cbn [bind]; try discriminate.
              destruct (o_snell_inv K _ _ _); cbn [bind]; [discriminate | intros H; inversion H; reflexivity].
-      + unfold compute_sign. fold (Config.cfg_pump o c). rewrite Hle. cbn [bind fst].
+      + destruct (rj && neqb o pu (n0 o)); [discriminate |].
+        unfold compute_sign. fold (Config.cfg_pump o c). rewrite Hle. cbn [bind fst].
         unfold Config.theta_step, poling_new.
         destruct (is_auto _); [destruct (nltb o (n0 o) _); cbn [is_pol_off bind]; discriminate |].
         cbn [bind]. unfold Config.idler_step, idler_optimum. destruct (c_idler c) as [| ic].
